@@ -177,7 +177,14 @@ Proof.
     - rewrite E, canon_fm1, Z.eqb_refl. reflexivity.
     - rewrite fle_canon. change (l_min_samp (lim c)) with (of_bits (c_min_samp c)) in E.
       rewrite E. apply orb_true_r. }
-  unfold item_intervals. cbn [repeat length Nat.eqb forallb]. rewrite !Hok. reflexivity.
+  unfold item_intervals, modify_answer, revise_subscription_values. rewrite Et.
+  cbn [repeat app length Nat.eqb firstn skipn forallb]. rewrite !Hok. cbn [andb].
+  rewrite fle_canon. change (l_min_pub (lim c)) with (of_bits (c_min_pub c)).
+  rewrite (pub_bound (of_bits (c_min_pub c)) (of_bits (c_pub c)) Hp). cbn [andb].
+  replace (1 <=? revise_keep_alive (lim c) (c_ka c)) with true by (symmetry; apply Z.leb_le; lia).
+  replace (revise_keep_alive (lim c) (c_ka c) <=? c_max_ka c) with true by (symmetry; apply Z.leb_le; lia).
+  replace (3 * revise_keep_alive (lim c) (c_ka c) <=? t) with true by (symmetry; apply Z.leb_le; lia).
+  reflexivity.
 Qed.
 
 Theorem oracle_holds c : valid c -> known c = 0 -> oracle c (run c) = true.
@@ -203,7 +210,7 @@ Definition nan_witness : case :=
 Theorem legacy_refuted : exists c, valid c /\ oracle c (legacy_run c) = false.
 Proof. exists nan_witness. split; vm_compute; reflexivity. Qed.
 
-Example nan_witness_now : run nan_witness = [0x408F400000000000; 20; 100; 0x4059000000000000; 5] ++ repeat 0x4059000000000000 6.
+Example nan_witness_now : run nan_witness = [0x408F400000000000; 20; 100; 0x4059000000000000; 5] ++ repeat 0x4059000000000000 6 ++ [0x408F400000000000; 20; 100].
 Proof. vm_compute. reflexivity. Qed.
 Example valid_extreme :
   valid (mk_case 0x7FF0000000000000 0 1431655765 1431655765 4294967295 1 0x7FF8000000000001 0 0 0xFFF0000000000000 4294967295).
